@@ -17,7 +17,7 @@ use std::thread::JoinHandle;
 use crate::util::lockp;
 
 pub use a10::verif::{
-    LOAD_BUF_TAIL, LOAD_SHARED, LOCK, RMW_POLLING, STORE_BUF_TAIL, STORE_CQ_HEAD, STORE_SQ_TAIL,
+    LOAD_BUF_TAIL, LOAD_SHARED, LOCK, LOCKED, RMW_POLLING, STORE_BUF_TAIL, STORE_CQ_HEAD, STORE_SQ_TAIL,
     TRY_LOCK,
 };
 
